@@ -264,14 +264,18 @@ def r3(fx):
             yield ob(f'.{ext}: {k} without flag', ok, fn, got=f'{v!r} {note}', want=f'{dflt!r} (default of {wfn_name})')
     # flags given: they survive for the kinds that accept them
     cfg = {k: v for k, v in defaults.items() if k not in consumed}
-    cfg.update(scale=3, border=1, dark='darkred', light='transparent', title='T', dpi=300, svgid='i', no_classes=True, svgencoding=None, unit='mm')
+    cfg.update(scale=3, border=1, dark='DarkRed', light='transparent', title='T', dpi=300, svgid='i', no_classes=True, svgencoding=None, unit='mm',
+               finder_dark=' X ', data_light='#AbCdEf')
     got = bc(dict(cfg), filename='x.svg')
-    want_svg = {'scale': 3, 'border': 1, 'dark': 'darkred', 'light': None, 'title': 'T', 'svgid': 'i', 'svgclass': None, 'lineclass': None,
+    want_svg = {'scale': 3, 'border': 1, 'dark': 'DarkRed', 'light': None, 'finder_dark': ' X ', 'data_light': '#AbCdEf', 'title': 'T', 'svgid': 'i', 'svgclass': None, 'lineclass': None,
                 'encoding': None, 'unit': 'mm'}
     yield ob('flags reach the SVG serialiser (transparent -> None, --no-classes, --svgencoding)', all(got.get(k, '<missing>') == v for k, v in want_svg.items()), fn,
              got={k: got.get(k, '<missing>') for k in want_svg}, want=want_svg)
     got = bc(dict(cfg), filename='x.png')
-    yield ob('flags reach the PNG serialiser', all(got.get(k, '<missing>') == v for k, v in dict(scale=3, border=1, dark='darkred', light=None, dpi=300).items())
+    got_txt = bc(dict(cfg, dark='X', light=' '), filename='x.txt')
+    yield ob('colour values are passed on verbatim (case and blanks preserved), e.g. the TXT characters', got_txt.get('dark') == 'X' and got_txt.get('light') == ' ', fn,
+             got=(got_txt.get('dark'), got_txt.get('light')), want=('X', ' '))
+    yield ob('flags reach the PNG serialiser', all(got.get(k, '<missing>') == v for k, v in dict(scale=3, border=1, dark='DarkRed', light=None, dpi=300).items())
              and 'title' not in got, fn, got=got, want='scale, border, dark, light, dpi')
 
 
